@@ -27,7 +27,8 @@ def bits(e):
     s = e[2]
     if s[0] == "const":
         if s[1] is None:
-            return [None] * w
+            # an immediate whose value is not known statically is a source of its own
+            return [("const#%s" % s[2], i) for i in range(w)] if len(s) > 2 else [None] * w
         v = s[1] % (1 << w)
         return [(v >> i) & 1 for i in range(w)]
     if s[0] != "op":
@@ -56,6 +57,15 @@ def bits(e):
         if op == "Shl":
             return ([0] * min(k, w) + a)[:w]
         return (a[k:] + [0] * w)[:w]
+    if op == "rotl" and len(args) == 2:
+        a = bits(args[0])
+        k = args[1][2][1] if args[1][2][0] == "const" else None
+        if a is None:
+            return None
+        if k is None:
+            return [None] * w
+        k %= w
+        return [a[(i - k) % w] for i in range(w)]
     if op in ("And", "Or", "Xor") and len(args) == 2:
         a, b = bits(args[0]), bits(args[1])
         if a is None or b is None or len(a) != len(b):
